@@ -139,7 +139,7 @@ def digits (n : Nat) : List Nat :=
   let rec go : Nat → Nat → List Nat → List Nat
     | 0, _, acc => acc
     | fuel + 1, n, acc => if n == 0 then acc else go fuel (n / 10) ((n % 10) :: acc)
-  go 12 n []
+  go 20 n []
 
 def bodyFacets (mn : String) (ps : List α) (toNat : α → Nat) : Option (List (V3 α → α)) :=
   match mn, ps with
